@@ -10,21 +10,31 @@ from . import flow, pathwalk, rules
 from .build import AnalysisBroken
 
 
+def type_switches(f):
+    """parameter index -> switches of f on that parameter"""
+    out = {}
+    for i in f.all_insts():
+        if i.op == "switch":
+            src = rules.load_source(f, i["cond"])
+            if src and src[0] == "alloca":
+                k = f.param_index_of_alloca(f.insts[src[1]])
+                if k is not None:
+                    out.setdefault(k, []).append(i)
+    return out
+
+
 def find_dispatcher(P):
+    """the function whose switch(es) on one of its parameters distinguish at least 30 message types (one big switch today; the same
+    function after its cases were distributed over two switches is still the dispatcher)"""
     best = None
     for f in P.repo_functions():
-        for i in f.all_insts():
-            if i.op == "switch" and len(i["cases"]) >= 30:
-                best = (f, i)
+        for k, sws in type_switches(f).items():
+            n = len({c[0] & 0xff for sw in sws for c in sw["cases"]})
+            if n >= 30 and (best is None or n > best[0]):
+                best = (n, f, max(sws, key=lambda s_: len(s_["cases"])), k)
     if best is None:
         raise AnalysisBroken("dispatcher (switch over >= 30 message types) not found")
-    f, sw = best
-    src = rules.load_source(f, sw["cond"])
-    tparam = None
-    if src and src[0] == "alloca":
-        tparam = f.param_index_of_alloca(f.insts[src[1]])
-    if tparam is None:
-        raise AnalysisBroken("dispatcher switch is not on a parameter")
+    n, f, sw, tparam = best
     # message parameter: the pointer parameter that is freed somewhere in the function
     mparam = None
     for c in f.calls("free"):
@@ -144,7 +154,8 @@ class Dispatch:
                 for j, a in enumerate(i.args):
                     if a.get("k") in ("inst", "arg") and ("param", self.mparam) in _deep_param(f, a):
                         self.msg_uses[i.id] = "arg%d" % j
-        self.case_values = sorted({c[0] & 0xff for c in self.sw["cases"]})
+        self.switches = type_switches(f).get(self.tparam, [self.sw])
+        self.case_values = sorted({c[0] & 0xff for sw_ in self.switches for c in sw_["cases"]})
         self._summ = {}
 
     def msg_arg_positions(self, call):
